@@ -7,6 +7,7 @@
                                                 for i := range c.F { c.F[i] = … }                         (fixed array)
       for _, x := range c.F { x.Marshal() }     c.F = []T{}; for i < int(c.G) { guard; x.Unmarshal(blk[off:off+size]); … }
       if c.F != 0 { PutUint…(c.F) }             c.F = 0; if WordCount == k { guard; c.F = …; offset += w } (optional, trailing)
+      if c.F != [n]T{0,…} { range c.F }        c.F = [3]T{0,0,0}; if WordCount == k { guard; c.F = [3]T{…}; offset += 12 } (optional array)
       append(raw, c.Pad...)                     padLen := …; if padLen%2 == 1 { padLen++ } / if (len(P)+3)%2 == 1 { padLen = 1 };
                                                 c.Pad = blk[offset:offset+padLen]                         (padding arithmetic)
 
@@ -34,6 +35,7 @@ def layoutML : List MStmt → Option (List Slot)
   | .forInt b w e f :: r => (layoutML r).map (.ints b w e f none :: ·)
   | .forSub b f t :: r => (layoutML r).map (.subs b f t none none :: ·)
   | .ifNonZero f [.int b w e g] :: r => if f = g then (layoutML r).map (.opt b w e f none :: ·) else none
+  | .ifNonZeroArr f [.forInt b w e g] :: r => if f = g then (layoutML r).map (.optInts b w e f 0 none :: ·) else none
   | _ :: _ => none
 
 /-- `layoutU` with the loops: a counted integer loop must follow the `make` of the same list with the same
@@ -60,6 +62,8 @@ def layoutUL : List UStmt → Option (List Slot)
   | [.readBytes b f n] => some [.bytes b f (some n)]
   | .zeroInt f0 :: .ifWordCount k [.guard b (.lit n), .readInt b' w e f, .advance (.lit m)] :: r =>
     if f0 = f ∧ b = b' ∧ n = w ∧ m = w then (layoutUL r).map (.opt b w e f (some k) :: ·) else none
+  | .zeroInts f0 n :: .ifWordCount k [.guard b (.lit g), .readArr3 b' f, .advance (.lit m)] :: r =>
+    if f0 = f ∧ b = b' ∧ n = 3 ∧ g = 12 ∧ m = 12 then (layoutUL r).map (.optInts b 4 .le f 3 (some k) :: ·) else none
   | .setPad _ :: r => layoutUL r
   | .padRoundUp :: r => layoutUL r
   | .padIfPOdd :: r => layoutUL r
@@ -105,6 +109,8 @@ def okUL (hp hd : Bool) : UPos → List String → List UStmt → Bool
   | pos, seen, [.readBytes b _ n] => pos.canRead b && n.closed seen
   | pos, seen, .zeroInt _ :: .ifWordCount _ [.guard _ _, .readInt b _ _ f, .advance _] :: r =>
     pos.canRead b && okUL hp hd (pos.read b) (f :: seen) r
+  | pos, seen, .zeroInts _ _ :: .ifWordCount _ [.guard _ _, .readArr3 b f, .advance _] :: r =>
+    pos.canRead b && okUL hp hd (pos.read b) (f :: seen) r
   | pos, seen, .setPad e :: r => e.closed seen && okUL hp hd pos seen r
   | pos, seen, .padRoundUp :: r => okUL hp hd pos seen r
   | pos, seen, .padIfPOdd :: r => okUL hp hd pos seen r
@@ -134,16 +140,23 @@ def receiverFits (c : Cmd) (env0 env : Env) : Bool :=
       | some (.ns a), some (.ns b) => a.length == b.length
       | _, _ => false)
 
-/-- "WordCount tells which": an optional integer is the last parameter slot, everything in front of it has a
-    fixed width (`n` bytes so far), and the word count `k` under which Unmarshal reads it is the one the block has
+/-- "WordCount tells which": an optional integer (or array of integers) is the last parameter slot, everything in
+    front of it has a fixed width (`n` bytes so far: integers, and nested values of a `fixedSize` type), and the word count `k` under which Unmarshal reads it is the one the block has
     with the field and not the one it has without (`andxWords`: the two AndX words counted in front) -/
 def optTrailing (andx : Bool) : List Slot → Nat → Bool
   | [], _ => true
   | [.opt _ w _ _ (some k)], n => decide (andxWords andx + (n + w + 1) / 2 = k) && decide (andxWords andx + (n + 1) / 2 ≠ k)
   | .opt .. :: _, _ => false
+  | [.optInts _ w _ _ cnt (some k)], n =>
+    decide (andxWords andx + (n + w * cnt + 1) / 2 = k) && decide (andxWords andx + (n + 1) / 2 ≠ k)
+  | .optInts .. :: _, _ => false
   | .int _ w _ _ :: r, n => optTrailing andx r (n + w)
   | .u8 _ _ :: r, n => optTrailing andx r (n + 1)
-  | _ :: r, _ => r.all (fun sl => match sl with | .opt .. => false | _ => true)
+  | .sub _ _ t _ :: r, n =>
+    match fixedSize t with
+    | some k => optTrailing andx r (n + k)      -- a nested value whose encoding has the same length for every value
+    | none => r.all (fun sl => match sl with | .opt .. | .optInts .. => false | _ => true)
+  | _ :: r, _ => r.all (fun sl => match sl with | .opt .. | .optInts .. => false | _ => true)
 
 /-- C04 static predicate for the loop fragment: `Mirror` with `layoutML` / `layoutUL` / `okUL` in place of
     `layoutM` / `layoutU` / `okU` — both programs are straight-line except for loops over list fields, describe the
@@ -167,7 +180,7 @@ def MirrorLoops (c : Cmd) : Bool :=
       (recvFields body).all (fun f => f != andxField && c.marshal.all (fun s => s.modifies != some f)) &&
       -- an optional integer only as the last parameter slot behind fixed-width slots, under the right word count
       optTrailing c.isAndX (u.filter (·.blk == .P)) 0 &&
-      (u.filter (·.blk == .D)).all (fun sl => match sl with | .opt .. => false | _ => true)
+      (u.filter (·.blk == .D)).all (fun sl => match sl with | .opt .. | .optInts .. => false | _ => true)
     | _, _ => false
 
 /-- `Reencodable` over the loop fragment's marshal layout -/
